@@ -250,6 +250,29 @@ pub fn elide(v: &serde_json::Value) -> serde_json::Value {
     }
 }
 
+fn digest_sink() -> Option<&'static Mutex<std::fs::File>> {
+    static SINK: std::sync::OnceLock<Option<Mutex<std::fs::File>>> = std::sync::OnceLock::new();
+    SINK.get_or_init(|| std::env::var("RBPSIM_DIGEST").ok().map(|p| Mutex::new(std::fs::OpenOptions::new().create(true).append(true).open(p).expect("digest file"))))
+        .as_ref()
+}
+
+/// strip what §1 lists as uncontrolled and irrelevant: log timestamps, thread ids, scratch paths
+pub fn normalize_text(s: &str, scratch: &str) -> String {
+    let mut out = String::new();
+    for l in s.lines() {
+        let l = if crate::exec::is_log_line(l) { &l[11..] } else { l };
+        let mut l = l.replace(scratch, "<scratch>");
+        if let Some(i) = l.find("' (") {
+            if let Some(j) = l[i..].find(") panicked") {
+                l.replace_range(i + 1..i + j + 1, "");
+            }
+        }
+        out.push_str(&l);
+        out.push('\n');
+    }
+    out
+}
+
 pub const ABORTED: &str = "exploration aborted after a run hit the wall-clock cap";
 
 pub struct Harness<'a> {
@@ -272,6 +295,11 @@ impl<'a> Harness<'a> {
         self.sub += 1;
         if self.ctx.abort.load(Ordering::Relaxed) {
             return Err(ABORTED.to_string());
+        }
+        if let Ok(want) = std::env::var("RBPSIM_DUMP_SCN") {
+            if want == scn.index_no.to_string() {
+                let _ = std::fs::write(format!("/tmp/scn-{}-{}.json", scn.property, scn.index_no), serde_json::to_string(&*scn).unwrap());
+            }
         }
         let model = Model::new(scn);
         let outs = exec_scenario(self.ctx, &self.wd, scn, &model.built)?;
@@ -299,6 +327,59 @@ impl<'a> Harness<'a> {
         }
         if self.stats.samples.len() < 3 && (self.sub == 1 || self.stats.samples.is_empty()) {
             self.stats.samples.push(elide(&serde_json::to_value(&*scn).unwrap()));
+        }
+        if let Some(d) = digest_sink() {
+            // determinism proof (DESIGN §7.1): one line per scenario, independent of worker count and timing
+            let mut line = format!("{} {} {:016x}", self.prop.id(), scn.index_no, scenario_hash(scn));
+            for (r, o) in scn.runs.iter().zip(outs.iter()) {
+                // blk files still open at exit are closed in HashMap (per-process random) order when the
+                // parser is dropped: every burst of consecutive blk close events is compared as a set
+                let mut t = String::new();
+                let mut burst: Vec<&str> = Vec::new();
+                // unspent / balances rows are written in the process's HashMap order (std RandomState is
+                // seeded by the OS and is not under the seam): the sizes and number of their write events
+                // vary from process to process, so only the non-write events of those runs are compared
+                let hash_ordered = matches!(r.callback.as_str(), "unspentcsvdump" | "balances");
+                for e in &o.trace {
+                    if hash_ordered && e.class == "out" && e.op == "write" {
+                        continue;
+                    }
+                    if e.op == "close" && e.class == "blk" {
+                        burst.push(e.name.as_str());
+                        continue;
+                    }
+                    if !burst.is_empty() {
+                        burst.sort();
+                        t.push_str(&format!("close-burst {}\n", burst.join(",")));
+                        burst.clear();
+                    }
+                    if hash_ordered {
+                        // sequence numbers shift with the number of write events
+                        t.push_str(e.raw.splitn(2, ' ').nth(1).unwrap_or(""));
+                    } else {
+                        t.push_str(&e.raw);
+                    }
+                    t.push('\n');
+                }
+                if !burst.is_empty() {
+                    burst.sort();
+                    t.push_str(&format!("close-burst {}\n", burst.join(",")));
+                }
+                let norm = crate::oracle::normalized_output(r, o).join("\u{1}");
+                let err = normalize_text(&o.stderr_str(), &self.wd.root.to_string_lossy());
+                line.push_str(&format!(
+                    " [{:?} t={} o={} e={}]",
+                    o.exit,
+                    &hex(&sha256_(t.as_bytes()))[..12],
+                    &hex(&sha256_(norm.as_bytes()))[..12],
+                    &hex(&sha256_(err.as_bytes()))[..12]
+                ));
+            }
+            let mut classes: Vec<&str> = vs.iter().map(|v| v.class.as_str()).collect();
+            classes.sort();
+            line.push_str(&format!(" v={:?}\n", classes));
+            use std::io::Write;
+            let _ = d.lock().unwrap().write_all(line.as_bytes());
         }
         let bad = !vs.is_empty();
         for v in vs {
@@ -363,7 +444,10 @@ pub fn run_check(prop: &dyn Prop, env: &CheckEnv) -> i32 {
         run_ns: AtomicU64::new(0),
         abort: std::sync::atomic::AtomicBool::new(false),
     };
-    let n_items = prop.items(env.tier);
+    let mut n_items = prop.items(env.tier);
+    if let Some(l) = std::env::var("RBPSIM_ITEM_LIMIT").ok().and_then(|x| x.parse::<u64>().ok()) {
+        n_items = n_items.min(l);
+    }
     let next = AtomicU64::new(0);
     let merged: Mutex<Stats> = Mutex::new(Stats::default());
     let all_viol: Mutex<Vec<(Scenario, Violation)>> = Mutex::new(Vec::new());
